@@ -29,6 +29,7 @@ type recCase struct {
 	Kind    string         `json:"kind"` // "rec"
 	Src     string         `json:"src"`
 	Rec     bool           `json:"rec"`
+	Entry   string         `json:"entry"` // "file": from the module top level; "go": starlark.Call from the host on an idle thread
 	Chain   []string       `json:"chain"`
 	Events  [][]int        `json:"events"` // [0,fv,code] call fn; [1,b] call builtin; [2] return
 	Codes   map[string]int `json:"codes"`
@@ -132,6 +133,7 @@ func recMain(argv []string) {
 			names = append(names, c.Name)
 		}
 		// two runs in sequence: frames of the first run must be gone when the second starts
+		defs := b.String()
 		fmt.Fprintf(&b, "r1 = %s([%s])\nr2 = %s([%s])\n", chain[0].Name, strings.Join(names[1:], ", "), chain[0].Name, strings.Join(names[1:], ", "))
 		src := b.String()
 		// expectation from the rule: the first callable whose code is already active fails
@@ -179,47 +181,86 @@ func recMain(argv []string) {
 			codes[c.Name] = c.Code
 		}
 		codes["inner"] = 10
-		for _, rec := range []bool{false, true} {
-			thread := &starlark.Thread{Name: "c09rec"}
-			thread.SetMaxExecutionSteps(1000000)
-			g, err := func() (g starlark.StringDict, err error) {
-				defer func() {
-					if r := recover(); r != nil {
-						err = fmt.Errorf("panic: %v", r)
-					}
-				}()
-				return starlark.ExecFileOptions(&syntax.FileOptions{Recursion: rec}, thread, "g.star", src, nil)
-			}()
-			obs := ""
-			if err == nil {
-				obs = "ok:" + g["r1"].String() + "," + g["r2"].String()
-			} else if i := strings.Index(err.Error(), "function "); i >= 0 && strings.Contains(err.Error(), "called recursively") {
+		classify := func(err error) string {
+			if i := strings.Index(err.Error(), "function "); i >= 0 && strings.Contains(err.Error(), "called recursively") {
 				rest := err.Error()[i+len("function "):]
-				obs = "recursion:" + rest[:strings.Index(rest, " ")]
-			} else {
-				obs = "other:" + err.Error()
+				return "recursion:" + rest[:strings.Index(rest, " ")]
 			}
-			expect := fmt.Sprintf("ok:%d,%d", len(chain)-1, len(chain)-1)
-			if !rec && firstBad >= 0 {
-				nm := chain[firstBad].Name
-				if chain[firstBad].Code == 10 {
-					nm = "inner"
+			return "other:" + err.Error()
+		}
+		// the same chain entered by the host: starlark.Call on an idle thread, no <toplevel> frame below
+		goEvents := events[1 : len(events)-1]
+		for _, rec := range []bool{false, true} {
+			for _, entry := range []string{"file", "go"} {
+				thread := &starlark.Thread{Name: "c09rec"}
+				thread.SetMaxExecutionSteps(1000000)
+				obs := ""
+				func() {
+					defer func() {
+						if r := recover(); r != nil {
+							obs = fmt.Sprintf("other:panic: %v", r)
+						}
+					}()
+					if entry == "file" {
+						g, err := starlark.ExecFileOptions(&syntax.FileOptions{Recursion: rec}, thread, "g.star", src, nil)
+						if err == nil {
+							obs = "ok:" + g["r1"].String() + "," + g["r2"].String()
+						} else {
+							obs = classify(err)
+						}
+						return
+					}
+					g, err := starlark.ExecFileOptions(&syntax.FileOptions{Recursion: rec}, thread, "g.star", defs, nil)
+					if err != nil {
+						obs = "other:definitions do not execute: " + err.Error()
+						return
+					}
+					rest := make([]starlark.Value, 0, len(chain))
+					for _, c := range chain[1:] {
+						rest = append(rest, g[c.Name])
+					}
+					idle := &starlark.Thread{Name: "c09rec-go"} // a thread that is running nothing
+					idle.SetMaxExecutionSteps(1000000)
+					var rs []string
+					for k := 0; k < 2; k++ { // twice in sequence
+						v, err := starlark.Call(idle, g[chain[0].Name], starlark.Tuple{starlark.NewList(rest)}, nil)
+						if err != nil {
+							obs = classify(err)
+							return
+						}
+						rs = append(rs, v.String())
+					}
+					obs = "ok:" + strings.Join(rs, ",")
+				}()
+				expect := fmt.Sprintf("ok:%d,%d", len(chain)-1, len(chain)-1)
+				if !rec && firstBad >= 0 {
+					nm := chain[firstBad].Name
+					if chain[firstBad].Code == 10 {
+						nm = "inner"
+					}
+					expect = "recursion:" + nm
 				}
-				expect = "recursion:" + nm
+				ev := events
+				if entry == "go" {
+					ev = goEvents
+				}
+				c := &recCase{Kind: "rec", Src: src, Rec: rec, Entry: entry, Chain: names, Events: ev, Codes: codes, Obs: obs, Expect: expect}
+				if entry == "go" {
+					c.Src = defs + "# entered by the host: starlark.Call(idle thread, " + chain[0].Name + ", ([" + strings.Join(names[1:], ", ") + "],)), twice\n"
+				}
+				if obs != expect {
+					c.Problem = fmt.Sprintf("recursion=%v, entry=%s: observed %s, the rule gives %s", rec, entry, obs, expect)
+					problems++
+				}
+				key := "on"
+				if !rec {
+					key = "off"
+				}
+				dist[key+":"+entry+":"+strings.SplitN(obs, ":", 2)[0]]++
+				hx.Emit(c)
 			}
-			c := &recCase{Kind: "rec", Src: src, Rec: rec, Chain: names, Events: events, Codes: codes, Obs: obs, Expect: expect}
-			if obs != expect {
-				c.Problem = fmt.Sprintf("recursion=%v: observed %s, the rule gives %s", rec, obs, expect)
-				problems++
-			}
-			key := "on"
-			if !rec {
-				key = "off"
-			}
-			dist[key+":"+strings.SplitN(obs, ":", 2)[0]]++
-			hx.Emit(c)
 		}
 	}
-	hx.Emit(map[string]any{"kind": "recsummary", "graphs": *n, "runs": 2 * *n, "problems": problems, "dist": dist})
+	hx.Emit(map[string]any{"kind": "recsummary", "graphs": *n, "runs": 4 * *n, "problems": problems, "dist": dist})
 	hx.Flush()
 }
